@@ -345,7 +345,7 @@ func init() {
 		Assumptions: []string{"report matching is by mention of the index/field name, value and ids (wording not judged); extra reports on a corrupted database are not judged", "ref-counted link collections are not part of CheckIntegrity (not injected)"},
 		Plan: func(tier core.Tier, seed int64) int {
 			if tier == core.Thorough {
-				return 12000
+				return 120000
 			}
 			return 480
 		},
